@@ -1,7 +1,151 @@
-(** C12 — property theorems. *)
+(** C12 — ticking components tick on clock edges, once per instant, while busy.
+    Property theorems only.
+
+    Reading guide.  [exec f init ops = Some (s, evs)] says: [ops] is a history of
+    one ticking component with frequency [f], starting from a freshly built
+    component, that respects the engine contract (see C12.Model), in which no
+    call panicked and every engine time had a representable next clock edge
+    (< 2^64 ps).  [ops] is arbitrary: any interleaving of engine time advances,
+    TickNow / TickLater / NotifyRecv / NotifyPortFree calls from anywhere
+    (environment, other components with other frequencies, the component's own
+    Tick()), dispatches of its tick events and Tick() results with any progress
+    bit.  [pops evs] are the times at which the component was ticked. *)
+From Coq Require Import Sorting.Sorted.
 From Akita Require Import Lib.Base C42.Model C42.Proofs C12.Model C12.Proofs.
 Local Open Scope N_scope.
 
-Theorem c12_placeholder_init : pend init = [].
-Proof. reflexivity. Qed.
-Print Assumptions c12_placeholder_init.
+(** Clause 1: a ticking component is only ever ticked at multiples of its clock period. *)
+Theorem c12_on_edge : forall f p ops s evs, in_range f -> period f = Some p ->
+  exec f init ops = Some (s, evs) ->
+  Forall (fun t => t mod p = 0) (pops evs).
+Proof.
+  intros f p ops s evs Hf Hp H.
+  destruct (pops_on_edge f p Hf Hp ops init s evs (inv_init f p Hf Hp) H) as [Hall _].
+  eapply Forall_impl; [|exact Hall]. cbn. tauto.
+Qed.
+Print Assumptions c12_on_edge.
+
+(** Clause 2: at most once per instant — the times at which it is ticked are
+    strictly increasing (the invariant on the dedup guard). *)
+Theorem c12_once_per_instant : forall f p ops s evs, in_range f -> period f = Some p ->
+  exec f init ops = Some (s, evs) ->
+  StronglySorted N.lt (pops evs) /\ NoDup (pops evs).
+Proof.
+  intros f p ops s evs Hf Hp H.
+  destruct (pops_increasing f p Hf Hp ops init s evs (inv_init f p Hf Hp) H) as [Hs _].
+  split; [exact Hs|].
+  induction Hs as [|a l Hs IH Hall]; constructor; [|exact IH].
+  intro Hin. rewrite Forall_forall in Hall. specialize (Hall a Hin). lia.
+Qed.
+Print Assumptions c12_once_per_instant.
+
+(** ... and the guard never lets two tick events of one component with the same
+    time into the engine queue. *)
+Theorem c12_no_duplicate_tick_events : forall f p ops s evs, in_range f -> period f = Some p ->
+  exec f init ops = Some (s, evs) -> StronglySorted N.lt (pend s).
+Proof.
+  intros f p ops s evs Hf Hp H.
+  exact (inv_sorted p s (inv_exec f p Hf Hp init ops s evs (inv_init f p Hf Hp) H)).
+Qed.
+Print Assumptions c12_no_duplicate_tick_events.
+
+(** Clause 3: after a tick that made progress (history ending in [Ret true] at
+    time [now s1]) the component is ticked again at its next clock edge: in every
+    continuation the next tick is exactly at the least multiple of the period
+    after that time; until then that tick event stays queued and the engine time
+    cannot pass it (so a run that drains the queue dispatches it). *)
+Theorem c12_progress_reticks : forall f p ops1 s1 evs1 ops2 s2 evs2,
+  in_range f -> period f = Some p ->
+  exec f init (ops1 ++ [Ret true]) = Some (s1, evs1) ->
+  exec f s1 ops2 = Some (s2, evs2) ->
+  match pops evs2 with
+  | [] => In (least_multiple_gt p (now s1)) (pend s2) /\ now s2 <= least_multiple_gt p (now s1)
+  | v :: _ => v = least_multiple_gt p (now s1)
+  end.
+Proof. intros f p ops1 s1 evs1 ops2 s2 evs2 Hf Hp. exact (progress_reticks f p Hf Hp _ _ _ _ _ _). Qed.
+Print Assumptions c12_progress_reticks.
+
+(** Clause 4: a component that receives a message or gets a freed port (or is
+    asked to TickLater) at time [now s1] is ticked at a later clock edge: the tick
+    at the next edge [u] is dispatched, or is still queued with the engine time not
+    beyond it; and no tick happens strictly between the notification and [u]. *)
+Theorem c12_notify_later_edge : forall f p k ops1 s1 evs1 ops2 s2 evs2,
+  in_range f -> period f = Some p -> k <> KTickNow ->
+  exec f init (ops1 ++ [Call k]) = Some (s1, evs1) ->
+  exec f s1 ops2 = Some (s2, evs2) ->
+  let u := least_multiple_gt p (now s1) in
+  now s1 < u /\ u mod p = 0 /\
+  (In u (pops evs2) \/ (In u (pend s2) /\ now s2 <= u)) /\
+  Forall (fun v => v = now s1 \/ u <= v) (pops evs2).
+Proof.
+  intros f p k ops1 s1 evs1 ops2 s2 evs2 Hf Hp Hk H1 H2 u.
+  destruct (period_in_range f Hf) as [p' [Hp' [Hp1 _]]]. rewrite Hp in Hp'.
+  assert (p' = p) by congruence. subst p'.
+  destruct (lmgt_spec p (now s1) Hp1) as [Hm [Hgt _]].
+  split; [exact Hgt|]. split; [exact Hm|].
+  exact (notify_later_edge f p Hf Hp k _ _ _ _ _ _ Hk H1 H2).
+Qed.
+Print Assumptions c12_notify_later_edge.
+
+(** Where a TickNow request ends up: a tick at this edge or at the next edge is
+    queued — or the tick of this very instant is the last one the guard knows
+    (queued, or ALREADY HANDLED: then the request is dropped; this is the
+    lost-wake-up gap recorded under C09, it is not a C12 clause). *)
+Theorem c12_tick_now_where : forall f p ops1 s1 evs1, in_range f -> period f = Some p ->
+  exec f init (ops1 ++ [Call KTickNow]) = Some (s1, evs1) ->
+  In (least_multiple_ge p (now s1)) (pend s1) \/ In (least_multiple_gt p (now s1)) (pend s1) \/
+  (has s1 = true /\ next s1 = now s1 /\ now s1 mod p = 0).
+Proof. intros f p ops1 s1 evs1 Hf Hp. exact (tick_now_where f p Hf Hp _ _ _). Qed.
+Print Assumptions c12_tick_now_where.
+
+(** the third alternative does occur with nothing queued (1 GHz, t = 5000 ps) *)
+Theorem c12_tick_now_after_handled_drop_witness :
+  exists s evs, exec 1000000000 init [Adv 5000; Call KTickNow; Pop; Ret false; Call KTickNow] = Some (s, evs)
+                /\ pend s = [] /\ pops evs = [5000].
+Proof. eexists. eexists. vm_compute. repeat split. Qed.
+Print Assumptions c12_tick_now_after_handled_drop_witness.
+
+(** Inside the representable range no call and no Tick() return panics. *)
+Theorem c12_no_panic : forall f p ops s evs o, in_range f -> period f = Some p ->
+  exec f init ops = Some (s, evs) -> step f s o <> Panic.
+Proof. intros f p ops s evs o Hf Hp. exact (no_panic f p Hf Hp ops s evs o). Qed.
+Print Assumptions c12_no_panic.
+
+(** Regression lemmas: the two guard mutations break the property on the model.
+    [>=] -> [>] in TickLater: two notifications in one instant queue two tick
+    events with the same time. *)
+Theorem c12_guard_gt_mutation_refuted :
+  exists s1 s2 o1 o2,
+    tick_later_g GGt false 1000000000 init = Some (s1, o1) /\
+    tick_later_g GGt false 1000000000 s1 = Some (s2, o2) /\ pend s2 = [1000; 1000].
+Proof. do 4 eexists. vm_compute. repeat split. Qed.
+Print Assumptions c12_guard_gt_mutation_refuted.
+
+(** NextTick -> ThisTick in TickLater: after a tick at an edge that made progress
+    the re-tick request is dropped by the guard. *)
+Theorem c12_this_tick_mutation_refuted :
+  let s := mk_st true 1000 [] 1000 true in   (* inside Handle of the tick at 1000 ps, 1 GHz *)
+  tick_later_g GGe true 1000000000 s = Some (s, ODrop) /\
+  exists s', tick_later 1000000000 s = Some (s', OSched 2000).
+Proof. split; [reflexivity|eexists; reflexivity]. Qed.
+Print Assumptions c12_this_tick_mutation_refuted.
+
+(** Beyond the representable range the code silently stops re-ticking: the wrapped
+    next edge is "before" the guard's time (1 GHz, last edges before 2^64). *)
+Theorem c12_wrap_stops_ticking_witness :
+  let t := 18446744073709551000 in
+  let s := mk_st true t [] t true in
+  tick_later 1000000000 s = Some (s, ODrop) /\ fits 1000000000 s = false.
+Proof. split; reflexivity. Qed.
+Print Assumptions c12_wrap_stops_ticking_witness.
+
+(** Non-vacuity: a history with duplicate same-instant requests, a self call from
+    inside Tick(), progress, and a 1.5 GHz clock (period 666 ps) satisfies the hypotheses. *)
+Example c12_nonvacuous :
+  in_range 1500000000 /\ period 1500000000 = Some 666 /\
+  exists s evs,
+    exec 1500000000 init
+      [Adv 100; Call KNotifyRecv; Call KNotifyRecv; Call KTickNow; Adv 666; Pop; Call KTickLater; Ret true;
+       Call KNotifyPortFree; Adv 700; Call KTickNow; Pop; Ret true; Adv 1500; Pop; Ret false] = Some (s, evs)
+    /\ pops evs = [666; 1332; 1998].
+Proof. split; [unfold in_range; lia|]. split; [reflexivity|]. do 2 eexists. vm_compute. split; reflexivity. Qed.
